@@ -227,6 +227,24 @@ func (r *Runner) exec(c model.Call) model.Obs {
 		_, err = w.Sub.UpdateSubscription(ctx, &pubsubpb.UpdateSubscriptionRequest{
 			Subscription: &pubsubpb.Subscription{Name: model.SubPath(c.Op.Sub), DeadLetterPolicy: &pubsubpb.DeadLetterPolicy{DeadLetterTopic: model.TopicPath(c.Op.Topic), MaxDeliveryAttempts: 3}, RetryPolicy: &pubsubpb.RetryPolicy{MinimumBackoff: durationpb.New(2 * time.Second)}},
 			UpdateMask:   &fieldmaskpb.FieldMask{Paths: []string{"dead_letter_policy", "retry_policy", "expiration_policy"}}})
+	case "reconfig":
+		req := &pubsubpb.UpdateSubscriptionRequest{Subscription: &pubsubpb.Subscription{Name: model.SubPath(c.Op.Sub)}}
+		switch c.Op.Tgt {
+		case "retry:1s":
+			req.UpdateMask = &fieldmaskpb.FieldMask{Paths: []string{"retry_policy"}}
+			req.Subscription.RetryPolicy = &pubsubpb.RetryPolicy{MinimumBackoff: durationpb.New(time.Second)}
+		case "retry:30s-max40s":
+			req.UpdateMask = &fieldmaskpb.FieldMask{Paths: []string{"retry_policy"}}
+			req.Subscription.RetryPolicy = &pubsubpb.RetryPolicy{MinimumBackoff: durationpb.New(30 * time.Second), MaximumBackoff: durationpb.New(40 * time.Second)}
+		case "retry:none":
+			req.UpdateMask = &fieldmaskpb.FieldMask{Paths: []string{"retry_policy"}}
+		default:
+			req.UpdateMask = &fieldmaskpb.FieldMask{Paths: []string{"filter"}}
+			if f := model.FilterPresets[c.Op.Tgt]; f != nil {
+				req.Subscription.Filter = f.Render(filt.Style{})
+			}
+		}
+		_, err = w.Sub.UpdateSubscription(ctx, req)
 	case "updateSub":
 		_, err = w.Sub.UpdateSubscription(ctx, &pubsubpb.UpdateSubscriptionRequest{
 			Subscription: &pubsubpb.Subscription{Name: model.SubPath(c.Op.Sub), Labels: map[string]string{"k": "v"}, Filter: "attributes:q", EnableMessageOrdering: true},
